@@ -8,6 +8,7 @@ CONSTANTS
   MaxInlineElem = 107
   MaxOps = 1000
   EmitEdges = FALSE
+  EmitOneIn = 1
   WithReads = TRUE
   DigMode = "all"
   GrowUntil = 0
